@@ -5,6 +5,8 @@
 
 pub mod models;
 pub mod reference;
+#[cfg(hbs_lms_verif)]
+pub mod contracts;
 
 #[cfg(kani)]
 #[macro_use]
